@@ -100,8 +100,8 @@ const FUEL: u64 = 3_000_000;
 impl Prop for C03 {
     fn cases(&self, tier: Tier) -> u64 {
         match tier {
-            Tier::Quick => 2500,
-            Tier::Thorough => 200_000,
+            Tier::Quick => 6000,
+            Tier::Thorough => 400_000,
         }
     }
 
